@@ -251,6 +251,9 @@ func vkC05Compare(w *vkSrvWorld, cs vkSrvCase) (string, string, map[vkPath]vkCan
 	raw := cs.Pkt.build()
 	client := netip.MustParseAddrPort(cs.Client)
 	paths := []vkPath{vkPathDecoded, vkPathStrict, vkPathServeMsg}
+	if w.primer != nil {
+		paths = []vkPath{vkPathDecoded, vkPathStrict} // only the slab-owning paths see a primer
+	}
 	if cs.Proto == "udp" {
 		paths = append(paths, vkPathInline)
 	}
@@ -314,7 +317,12 @@ func vkSrvSweep(c *vkit.Ctx, mode string) {
 		w := vkNewSrvWorld(cs.Cfg)
 		defer w.close()
 		vkSeedWorld(w)
-		if v, _ := judge(w, cs); v != "" {
+		v, _ := judge(w, cs)
+		if v == "" {
+			w.primer = vkPrimerPkt()
+			v, _ = judge(w, cs)
+		}
+		if v != "" {
 			c.Violation(mode+":replay", v, cs)
 		}
 		return
@@ -339,7 +347,43 @@ func vkSrvSweep(c *vkit.Ctx, mode string) {
 				for pi, pkt := range vkPacketAlphabet(target, c.Thorough()) {
 					cs := vkSrvCase{Cfg: cfg, Proto: proto, Pkt: pkt, Client: vkSrvClient}
 					c.Add("evaluations", 1)
+					// reproduce runs the case on a fresh world (rules out TTL second boundaries, stale state and
+					// whatever history the sweep left on the recycled slab). The packet is served once first and
+					// that round discarded: a packet whose first serve itself changes shared state (e.g. records
+					// a failure for a new ECS audience) would otherwise make the path that runs first look different.
+					reproduce := func(primed bool) string {
+						w2 := vkNewSrvWorld(cfg)
+						vkSeedWorld(w2)
+						if primed {
+							w2.primer = vkPrimerPkt()
+						}
+						_, _ = judge(w2, cs)
+						v2, _ := judge(w2, cs)
+						w2.close()
+						return v2
+					}
 					v, outcome := judge(w, cs)
+					if v != "" {
+						if v = reproduce(false); v == "" {
+							c.Add("dropped_unreproducible", 1)
+						}
+					}
+					if v == "" {
+						// the same packet on a slab that has just served another client's EDNS query
+						// (slab reuse is how the engines run)
+						w.primer = vkPrimerPkt()
+						pv, o2 := judge(w, cs)
+						w.primer = nil
+						c.Add("evaluations", 1)
+						c.Outcome("primed:" + o2)
+						if pv != "" {
+							if pv = reproduce(true); pv == "" {
+								c.Add("dropped_unreproducible", 1)
+							} else {
+								v = "after another client's EDNS query on the same slab: " + pv
+							}
+						}
+					}
 					c.Outcome(outcome)
 					if !strings.HasPrefix(outcome, "dropped") {
 						c.DistinctStr("nontrivial", cs.key())
@@ -348,20 +392,7 @@ func vkSrvSweep(c *vkit.Ctx, mode string) {
 						c.Sample(map[string]any{"case": cs.key(), "outcome": outcome})
 					}
 					if v != "" {
-						// reproduce on a fresh world (rules out TTL second boundaries and stale state).
-						// The packet is served once first and that round discarded: a packet whose first
-						// serve itself changes shared state (e.g. records a failure for a new ECS audience)
-						// would otherwise make the path that happens to run first look different.
-						w2 := vkNewSrvWorld(cfg)
-						vkSeedWorld(w2)
-						_, _ = judge(w2, cs)
-						v2, _ := judge(w2, cs)
-						w2.close()
-						if v2 == "" {
-							c.Add("dropped_unreproducible", 1)
-							continue
-						}
-						c.Violation(mode+":"+vkSrvClass(mode, cs, v2), v2+"\n    case: "+cs.key(), cs)
+						c.Violation(mode+":"+vkSrvClass(mode, cs, v), v+"\n    case: "+cs.key(), cs)
 					}
 				}
 			}
